@@ -701,7 +701,7 @@ impl Gen {
         let bytes = self.encode(&item, true);
         let mut steps = vec![json!({"ev": "inject", "bytes": jbytes(&bytes)}), json!({"ev": "decode", "api": "slice", "ty": ty, "reg": ""})];
         let aad = self.aad();
-        let pl = jbytes(&self.bytes(40));
+        let pl = self.aad();
         match ty {
             "CoseSign1" => {
                 steps.push(json!({"ev": "tbs", "m": "tbs_data", "aad": aad}));
@@ -759,7 +759,7 @@ impl Gen {
             steps.push(json!({"ev": "encode", "api": if tagged { "tagged" } else { "vec" }}));
             steps.push(json!({"ev": "decode", "api": if tagged { "tagged" } else { "slice" }, "ty": ty, "reg": ""}));
             let aad = self.aad();
-            let pl = jbytes(&self.bytes(20));
+            let pl = self.aad();
             match ty {
                 "CoseSign1" => steps.push(if detached_ok {
                     json!({"ev": "verify", "m": "verify_detached_signature", "pl": pl, "aad": aad, "res": self.res(50)})
